@@ -10,7 +10,8 @@ use refimpl::lex::{lex, spell_raw, Tok};
 use refimpl::rng::{fnv, Rng};
 use serde_json::{json, Map, Value};
 
-const ALPHA: [&str; 40] = [
+const ALPHA: [&str; 44] = [
+    "\r", "\r\n", "\n\r", "\u{0}",
     "\\", "\\", "'", "\"", "`", "u", "0", "0", "d", "8", "D", "c", "n", "t", "b", "f", "r", "/", "a", "x", " ", "\n", "\t", "\u{0}", "\u{1}",
     "\u{7f}", "é", "ÿ", "日", "\u{1F600}", "\u{FFFF}", "\u{10FFFF}", "{", "}", "[", "]", ":", ",", "1", "-",
 ];
@@ -338,6 +339,18 @@ pub fn run(args: &Args) {
             decoder_agreement(&mut rep, body, form);
             if form == 1 {
                 decoder_agreement(&mut rep, &format!("\"{}\"", body), 1);
+            }
+        }
+    }
+    // a backslash followed by (and following) every ASCII character, control characters included, and a few others
+    if args.shard == 0 {
+        let mut others: Vec<char> = (0u8..=0x7f).map(|c| c as char).collect();
+        others.extend(['\u{80}', '\u{85}', '\u{a0}', 'é', '\u{2028}', '\u{2029}', '\u{feff}', '\u{ffff}', '\u{1F600}']);
+        for x in others {
+            for form in 0..3u8 {
+                for body in [format!("a\\{}b", x), format!("{}\\", x), format!("\\{}", x), format!("a{}\\\\{}", x, x), format!("\r\n{}", x), format!("{}\r\n", x)] {
+                    decoder_agreement(&mut rep, &body, form);
+                }
             }
         }
     }
